@@ -134,6 +134,18 @@ def run(rep, tier):
                         want_ok = len(kinds) == 1 and kinds[0] in ("schedule_thread", "next_thrd") or (kinds == [] and passed_same and same)
                     else:
                         want_ok = kinds == []
+                    if name == "pending_boost" and kinds:
+                        # pending_boost is not a runnable state: whoever gets the task next (a queue or this worker
+                        # through next_thrd) only runs it from 'pending', so the state is reset before the hand-off
+                        seq = [e for _, _, e in evs]
+                        first_q = min(k_ for k_, e in enumerate(seq) if requeue_kind(e))
+                        reset = [k_ for k_, e in enumerate(seq) if e.get("k") == "call" and callee_short(e) == "set_state" and
+                                 e.get("args") and T(e["args"][0]).endswith("::pending")]
+                        if not reset or min(reset) > first_q:
+                            allok = False
+                            rep.bad("C01.R4", fn, loc_of(seq[first_q]), "boost-not-reset:%s" % kinds[0],
+                                    "after a boosted yield the task is handed on (%s) while still in state pending_boost: the next "
+                                    "worker finds a non-runnable state and drops it - the body never completes" % kinds[0])
                     seen_kinds.add(tuple(kinds))
                     if not want_ok:
                         allok = False
